@@ -125,8 +125,8 @@ Section Typed.
   Proof.
     destruct f; try discriminate; cbn [nonzero_int]; intros Hp.
     - destruct b; [|discriminate]. unfold py_mod_is_zero. cbn. eexists; reflexivity.
-    - unfold py_mod_is_zero. cbn [unsub num_of numkind_of mod_int].
-      apply negb_true_iff in Hp. unfold q_is_zero. cbn [inject_Z Qnum]. rewrite Hp. eexists; reflexivity.
+    - unfold py_mod_is_zero. cbn [unsub num_of numkind_of int_val]. unfold mod_int.
+      apply negb_true_iff in Hp. rewrite Hp. eexists; reflexivity.
   Qed.
 
   Lemma mod_bool_ok a f :
@@ -134,8 +134,8 @@ Section Typed.
   Proof.
     destruct f; try discriminate; cbn [nonzero_int]; intros Hp.
     - destruct b; [|discriminate]. unfold py_mod_is_zero. cbn. eexists; reflexivity.
-    - unfold py_mod_is_zero. cbn [unsub num_of numkind_of mod_int].
-      apply negb_true_iff in Hp. unfold q_is_zero. cbn [inject_Z Qnum]. rewrite Hp. eexists; reflexivity.
+    - unfold py_mod_is_zero. cbn [unsub num_of numkind_of int_val]. unfold mod_int.
+      apply negb_true_iff in Hp. rewrite Hp. eexists; reflexivity.
   Qed.
 
   Lemma mod_float_total x y : (forall b, y = NumFin b -> q_is_zero b = false) -> exists r, mod_float x y = Ok r.
